@@ -3,8 +3,8 @@
     string stay extracted inductives.  No Extract Constant / Extract Inductive of our own. *)
 From Coq Require Import ZArith List Bool String.
 From Coq Require Extraction ExtrOcamlBasic.
-From Mx Require ModInt Expr Simp EvalAbs X86Types X86Dis.
-From MxGen Require X86Tables.
+From Mx Require ModInt Expr Simp EvalAbs X86Types X86Dis Ppc.
+From MxGen Require X86Tables PpcTables.
 Extraction Language OCaml.
 Extraction "model.ml" ModInt.binop_apply ModInt.unop_apply ModInt.cmp_apply ModInt.in_rangeb
   BinInt.Z.add BinInt.Z.mul BinInt.Z.opp BinInt.Z.of_nat BinInt.Z.div BinInt.Z.modulo BinInt.Z.eqb BinInt.Z.ltb
@@ -12,4 +12,5 @@ Extraction "model.ml" ModInt.binop_apply ModInt.unop_apply ModInt.cmp_apply ModI
   Expr.get_r Expr.get_w Expr.get_expr_ids Expr.match_expr Expr.key_expr Expr.key_cmp
   Simp.simp Simp.simp1
   EvalAbs.eval_expr EvalAbs.eval_instr EvalAbs.simpF EvalAbs.pool_set
-  X86Dis.dis X86Dis.flow_flags X86Dis.getnextflow X86Dis.getdstflow X86Tables.x86_tables.
+  X86Dis.dis X86Dis.flow_flags X86Dis.getnextflow X86Dis.getdstflow X86Tables.x86_tables
+  Ppc.claimants Ppc.reencode PpcTables.ppc_classes.
